@@ -661,6 +661,10 @@ func c10Descs() []desc {
 // c10MaxWait bounds the waiting one call may ask for.
 const c10MaxWait = time.Second
 
+// c10MaxAlloc bounds the heap allocation (of the worker process) during one call; arguments are at most 64 KiB
+// (LeftPadHex: widths up to 2^20), a call of the unchanged library stays below a few MiB.
+const c10MaxAlloc = 1 << 30
+
 // c10Run evaluates one argument combination: returns normally, no panic, within the statement budget.
 func c10Run(d desc, i int) (args, bad string, ran bool) {
 	var f func()
@@ -684,11 +688,16 @@ func c10Run(d desc, i int) (args, bad string, ran bool) {
 	// statement budget - no operation of this library has a reason to wait at all
 	irt.VirtualTime(true)
 	irt.ResetWaited()
+	irt.ArmAlloc(c10MaxAlloc)
 	var pv any
 	func() {
 		defer func() { pv = recover() }()
 		f()
 	}()
+	irt.ArmAlloc(0)
+	if a, ok := irt.AllocExceeded(pv); ok {
+		return args, fmt.Sprintf("allocated %d MiB (more than %d MiB) for arguments of at most 64 KiB (work unbounded in an argument)", a>>20, c10MaxAlloc>>20), true
+	}
 	if w := irt.Waited(); w > c10MaxWait {
 		return args, fmt.Sprintf("asked to wait %v in total (sleeps / timers) before returning", w), true
 	}
